@@ -54,7 +54,9 @@ BodyKinds == {"comment",   \* no code at all
               "kbint",     \* raises KeyboardInterrupt
               "await",     \* top-level await expression with a value
               "swapout",   \* replaces sys.stdout and does not restore it
-              "filters"}   \* changes the warning filters
+              "filters",   \* changes the warning filters
+              "defh",      \* defines a helper function (several lines), silent
+              "callh"}     \* calls the helper of an earlier part, which raises inside the helper
 
 HasCode(b)   == b # "comment"
 IsExpr(b)    == b \in {"eval", "evalp", "evaln", "evalnp", "reprbad", "preprbad", "await"}
@@ -65,7 +67,7 @@ ValueKind(b) == CASE b \in {"eval", "evalp", "await"} -> "val"
                   [] b \in {"evaln", "evalnp"} -> "none"
                   [] b \in {"reprbad", "preprbad"} -> "badrepr"
                   [] OTHER -> "novalue"
-RaisesExc(b) == b \in {"raise", "praise"}
+RaisesExc(b) == b \in {"raise", "praise", "callh"}
 BaseExc(b)   == b \in {"sysexit", "kbint"}
 
 (* Output / value tokens.  Every token is <<class, part, index>>. *)
@@ -226,7 +228,7 @@ RefPartOutcome(p, k, opts) ==
                           ELSE IF w \notin TbWants THEN "exc"          \* a non-traceback want never hides it
                           ELSE IF ExcAccepted(w, st) THEN "ok" ELSE "gotwant"
        [] OTHER -> IF w = "none" \/ st.IGNORE_WANT THEN "ok"
-                   ELSE IF ValueKind(b) = "badrepr" /\ (NOut(b) = 0 \/ ~passes) THEN "reprfail"
+                   ELSE IF ValueKind(b) = "badrepr" /\ (NOut(b) = 0 \/ text # Out(k, b)) THEN "reprfail"   \* C09: a raising repr is a failure
                    ELSE IF passes THEN "ok" ELSE "gotwant"
 
 Fails(o) == o \in {"gotwant", "exc", "compile", "reprfail"}
@@ -395,11 +397,10 @@ CheckWant(text, out, vk, k) ==
                            ELSE text = got \/ text = <<valtok>>
                       ELSE text = got
   IN \E m \in 1..n : matches(Concat(SubSeq(trail, n - m + 1, n)))
-\* a raising repr is hit when the value has to be rendered: no stdout in the candidate, or stdout mismatch
-ReprNeeded(text, out) ==
-  LET trail == Append(unmatched, out)
-      n == Len(trail)
-  IN \E m \in 1..n : LET got == Concat(SubSeq(trail, n - m + 1, n)) IN got = <<>> \/ text # got
+\* a raising repr is hit when the value has to be rendered.  The trailing sequences are tried shortest
+\* first and the error is not a got/want error, so only the first candidate (this part's own output)
+\* decides: no stdout at all, or stdout that differs from the want
+ReprNeeded(text, out) == out = <<>> \/ text # out
 
 \* lines 843-981: capture, execute, check, except ladder, finally
 ExecPart ==
@@ -426,7 +427,7 @@ ExecPart ==
                       THEN pc' = "choose" /\ UNCHANGED <<unmatched, excInfo, failedPart, result>>
                       ELSE Fail("exc") /\ UNCHANGED <<unmatched, failedPart>>)      \* bare raise in check_exception
            ELSE IF ExcAccepted(part.want, st)
-                THEN /\ pc' = (IF "BreakAfterExpectedExc" \in Deviation THEN "finish" ELSE "choose")
+                THEN /\ pc' = (IF "BreakAfterExpectedExc" \in Deviation THEN "devtail" ELSE "choose")
                      /\ UNCHANGED <<unmatched, excInfo, failedPart, result>>         \* buffer untouched
                 ELSE Fail("gotwant") /\ UNCHANGED <<unmatched, failedPart>>
         ELSE IF part.want = "none" THEN
@@ -451,6 +452,16 @@ TailChoice ==
   /\ pc' = IF failedPart = -1 THEN "postrun" ELSE "finish"
   /\ UNCHANGED <<nlive, cfgv, px, g, i, unmatched, logged, skipped, excInfo, failedPart, executed, imported, nsBound, capture, result>>
 
+\* only reachable under a Deviation that leaves the loop although more parts follow: the part that
+\* should have been presented to the loop is added to the program so that the reference sees it
+DevTail ==
+  /\ pc = "devtail"
+  /\ \E t \in TailParts : /\ prog' = Append(prog, t)
+                           /\ wtext' = Append(wtext, WantText(prog', Len(prog'), cfgv.opts))
+  /\ nlive' = nlive + 1
+  /\ pc' = "finish"
+  /\ UNCHANGED <<cfgv, px, g, i, unmatched, logged, skipped, excInfo, failedPart, executed, imported, nsBound, capture, result>>
+
 \* lines 983-997
 Finish ==
   /\ pc = "finish"
@@ -470,7 +481,7 @@ PostRunEarly ==
   /\ UNCHANGED <<prog, wtext, nlive, cfgv, px, g, i, unmatched, logged, skipped, excInfo, failedPart, executed, imported, nsBound, capture>>
 
 Next == RunStart \/ Choose \/ Stop \/ PartDirectives \/ SkipByState \/ SkipNoCode \/ Proceed \/ PreImport
-        \/ Compile \/ ExecPart \/ TailChoice \/ Finish \/ PostRunEarly
+        \/ Compile \/ ExecPart \/ TailChoice \/ DevTail \/ Finish \/ PostRunEarly
 Spec == Init /\ [][Next]_vars
 
 Terminal == pc \in {"done", "raised"}
